@@ -234,7 +234,8 @@ static void initPrefs(
 
    while(k < pref.size())            // merge sort
    {
-      if(rowWeight[row[i]] < colWeight[col[j]])
+      // an LP without rows (or without columns) leaves nothing to merge on that side
+      if(j >= base.nCols() || (i < base.nRows() && rowWeight[row[i]] < colWeight[col[j]]))
       {
          pref[k++] = base.rId(row[i++]);
 
